@@ -262,10 +262,18 @@ def main(argv=None):
     ap.add_argument('prop', nargs='?')
     ap.add_argument('--tier', default=os.environ.get('VERIF_TIER', 'quick'))
     ap.add_argument('--replay')
+    ap.add_argument('--selftest', action='store_true')
     ap.add_argument('--jobs', type=int, default=int(os.environ.get('VERIF_JOBS', '0')) or min(16, os.cpu_count() or 4))
     a = ap.parse_args(argv)
     seed = int(os.environ.get('VERIF_SEED', '0') or 0)
     try:
+        if a.selftest:
+            from . import seams
+            seams.boot()
+            from .props import toy
+            ok = toy.selftest()
+            print('selftest', 'ok' if ok else 'FAILED')
+            return 0 if ok else 2
         if a.replay:
             return replay(a.replay)
         if not a.prop:
